@@ -143,6 +143,35 @@ def oracle_poly(edges, root):
     return _oracle_cache[key]
 
 
+def special_points(case, edges, root, nodes, want):
+    """The identity also holds at points a value-dependent shortcut would single out (plain Python numbers, as
+    message passing passes them): all u equal, all u one, u whose product over the other vertices is exactly 1
+    although they differ, zeros, negative values, phi in {0, 1}."""
+    from gcmpy.message_passing.equations.automated_equation import AutomatedEquation
+    others = [v for v in nodes if v != root]
+    pts = [("all-equal", 0.3, {v: 0.5 for v in others}), ("all-one", 0.6, {v: 1.0 for v in others}),
+           ("all-zero", 0.7, {v: 0.0 for v in others}),
+           ("phi-zero", 0.0, {v: 0.25 + 0.125 * k for k, v in enumerate(others)}),
+           ("phi-one", 1.0, {v: 0.25 + 0.125 * k for k, v in enumerate(others)}),
+           ("all-equal-2", 0.75, {v: 0.25 for v in others})]
+    if len(others) >= 2:
+        for tag, head in (("product-one", [2.0, 0.5]), ("product-one-negative", [-1.0, -1.0]), ("product-one-3", [4.0, 0.5, 0.5])):
+            if len(head) <= len(others):
+                for shift in (0, len(others) - len(head)):
+                    us = {v: 1.0 for v in others}
+                    for k, x in enumerate(head):
+                        us[others[shift + k]] = x
+                    pts.append((tag, 0.5 if shift == 0 else 0.2, us))
+    for tag, phi, us in pts:
+        us = {**us, root: 7.0}  # the focal vertex's own value is not part of the expectation
+        Gn = graph_of(case["name"] + "@" + tag, edges, us)
+        g = call("automated_equation", AutomatedEquation().automated_equation, Gn, phi, int(str(root)))
+        w = want.subs({**{f"u{v_}": Fraction(x) for v_, x in us.items()}, "p": Fraction(phi)})
+        if abs(float(g) - float(w)) > 1e-9 * max(1.0, abs(float(w))):
+            raise Violation("identity-special-point", f"motif {case['name']} edges {edges} focal {root} phi {phi} u {us} ({tag}): "
+                                                      f"got {g!r}, exact expectation {float(w)!r}")
+
+
 def check(case):
     import networkx as nx
     from gcmpy.message_passing.equations.automated_equation import AutomatedEquation
@@ -167,7 +196,9 @@ def check(case):
                     w = want.subs({**{f"u{v_}": x for v_, x in us.items()}, "p": phi})
                     if abs(float(g) - float(w)) > 1e-9 * max(1.0, abs(float(w))):
                         raise Violation("identity-grid", f"motif {case['name']} edges {edges} focal {root} phi {phi} u {us}: got {g}, exact {w}")
+            special_points(case, edges, root, nodes, want)
             return {"nontrivial": len(nodes) >= 3, "classes": ["rational_grid_fallback"]}
+        special_points(case, edges, root, nodes, want)
         if not isinstance(got, Poly):
             got = Poly.const(Fraction(got))
         if got != want:
